@@ -23,11 +23,13 @@ func init() {
 		Level: "exploration",
 		Rule: "histories of 12-70 container operations (constructors, views slice/cdr/rest incl. views of views, non-mutating append/append-bytes/concat/cons/reverse/map/select/reject/zip/insert-index/insert-sorted/assoc/dissoc/keys, mutators append!/append-bytes!/assoc!/dissoc!/stable-sort, containers stored in containers, quoted literals) over a heap of aliased lists, vectors, byte strings and sorted maps; operands are biased toward recent results, views of append results and zero-length appends; " +
 			"containers are also BUILT FROM THE ELEMENTS OF LIVE CONTAINERS THROUGH A CALL (apply / unpack / thread-last of list, vector, sorted-map, concat, append, cons with 0-2 leading arguments, the applied list possibly a view taken in the same expression; funcall with the elements written out; map identity; folds that rebuild; user functions and (compose identity list) handing back their &rest list; append! itself reached through apply), singly, twice from one source, or mutated in the same expression: the result is a new value in the model and never aliases its source; " +
+			"the operations are also written in EVERY CALL FORM their docstrings give them (stable-sort with < or > as symbol / quoted / #' / lambda and the optional key-fun -- identity, negation, a non-injective key, a constant key, first over rows -- on a named value or on a slice / cdr / rest view taken in the same expression, a predicate that looks into rows; insert-sorted with key-fun, over descending sequences, over rows; search-sorted reading a live sequence; append! with several values, live containers among them; assoc! / dissoc! / assoc / dissoc nested in one expression, (assoc () k v); append-bytes! / append-bytes / append 'bytes with bytes, integer lists and vectors; zip of one and three lists; concat of none and three), the heap model unchanged; " +
 			"after every operation every live value is compared with a heap model (backing, offset, length). distinct_nontrivial counts distinct (operation, operand provenance classes, result kind) signatures",
 		Assumptions: []string{
 			"the model follows docs/lang.md 'Sharing, copying and mutation' and the builtin docstrings: views share elements, non-mutating operations return fresh storage, append! grows its own target, stable-sort permutes its target in place and returns a fresh list for a program literal",
 			"whether growing a vector with append! moves it to new storage is unspecified (capacity is an implementation detail): once a vector that has outstanding views is grown, later in-place effects between it and those views are not judged (the affected values are skipped until reassigned)",
 			"a map key written consistently as a string (or as a symbol) throughout its lineage must keep that spelling in the printed form and in keys; a key written both ways has no specified spelling and is compared by name only",
+			"what the documentation says of an operation (stable-sort sorts in place and returns the sequence it sorted, the sort is stable, 'an optional key-fun extracts comparison keys from elements'; insert-sorted returns a new sequence; assoc! / dissoc! return the modified map; (assoc () ...) creates a new map) holds for all its call forms; where the place of an inserted item among equal keys would show (rows), a key that ties with none is drawn",
 			"apply / unpack call the function 'with the elements of lis as individual arguments' (docstring of unpack; docs/lang.md: 'unpacked as if the list contents had been passed ... as its arguments'), so whatever a call returns for written-out arguments -- the new list / vector / map of the constructors, and also the &rest list of a user function -- does not share storage with the applied list (switch c11JudgeRestListOfApply for the &rest case, which the documentation does not spell out separately)",
 		},
 		Cases:       func(tier string) int { return pick(tier, 5000, 300000) },
@@ -204,6 +206,11 @@ type c11Heap struct {
 	targetBorn int              // ... and when it was made
 	events     []string         // forms of the call-built family generated by the step
 	counts     map[string]int64 // counters raised by the step
+	// family "call forms" (c11_callforms.go)
+	form      string   // the step writes an operation in one of its optional call forms: "<operation>:<form>" ("" otherwise)
+	forms     []string // call forms generated by the step (evidence, floor)
+	targetVal *c11Val  // ... the value the step changes in place, if any
+	resultVal *c11Val  // ... the value the step returns, when it is a new one
 }
 
 // noteTarget records the value a mutator is about to change in place.
@@ -290,13 +297,14 @@ var c11Ops = []string{"list", "vector", "literal", "sorted-map", "json-map", "to
 	"assoc", "dissoc", "keys", "nest-list", "nest-map", "get", "elem", "elem", "insert-index-elem", "insert-sorted-elem", "cons-elem", "append-elem",
 	"append!", "append!-bind", "append-bytes!", "assoc!", "dissoc!", "stable-sort", "stable-sort-bind", "stable-sort-view-inline", "append!-view-inline", "append!-append-result-inline"}
 
-func init() { c11Ops = append(c11Ops, c11CallBuiltOps...) }
+func init() { c11Ops = append(append(c11Ops, c11CallBuiltOps...), c11CallFormOps...) }
 
 // c11Step generates one operation: its lisp source and its effect on the model.
 // It returns "" when the chosen operation has no applicable operand.
 func c11Step(r *fw.RNG, h *c11Heap) (src, opname, sig string) {
 	op := fw.Pick(r, c11Ops)
 	h.target, h.events = "", nil
+	h.form, h.forms, h.targetVal, h.resultVal = "", nil, nil, nil
 	ints := func(n int) ([]*c11Val, string) {
 		cs := make([]*c11Val, n)
 		var sb strings.Builder
@@ -781,6 +789,9 @@ func c11Step(r *fw.RNG, h *c11Heap) (src, opname, sig string) {
 		c11SortInPlace(view)
 		return fmt.Sprintf("(stable-sort < (slice '%s %s %d %d))", kind, n, i, j), op, op + "|" + v.kind + "|" + kind + "|" + v.prov
 	}
+	if c11IsCallFormOp(op) {
+		return c11CallFormStep(r, h, op)
+	}
 	return c11CallBuiltStep(r, h, op)
 }
 
@@ -809,15 +820,29 @@ func c11AppendInPlace(v *c11Val, cs []*c11Val) {
 	v.b, v.off, v.n = nb, 0, len(nb.cells)
 }
 
-// c11SortInPlace implements stable-sort on the model; it returns the value the builtin returns.
+// c11SortInPlace implements (stable-sort < v) on the model; it returns the value the builtin returns.
 func c11SortInPlace(v *c11Val) *c11Val {
+	return c11SortInPlaceBy(v, func(e *c11Val) int64 { return e.i }, false)
+}
+
+// c11SortInPlaceBy implements stable-sort on the model for any strict order on
+// integer keys: ascending keys (predicate <) or descending ones (>), the key of
+// an element being the element itself or what the key-fun makes of it.  The
+// sort is documented to be stable, so the result is determined.
+func c11SortInPlaceBy(v *c11Val, key func(*c11Val) int64, desc bool) *c11Val {
+	less := func(a, b *c11Val) bool {
+		if desc {
+			return key(a) > key(b)
+		}
+		return key(a) < key(b)
+	}
 	if v.sealed {
 		cs := c11CopyCells(v.elems())
-		sort.SliceStable(cs, func(i, j int) bool { return cs[i].i < cs[j].i })
+		sort.SliceStable(cs, func(i, j int) bool { return less(cs[i], cs[j]) })
 		return c11Seq(v.kind, cs, "sorted-copy-of-literal")
 	}
 	e := v.elems()
-	sort.SliceStable(e, func(i, j int) bool { return e[i].i < e[j].i })
+	sort.SliceStable(e, func(i, j int) bool { return less(e[i], e[j]) })
 	c11TaintLinked(v.b)
 	return v
 }
@@ -866,7 +891,11 @@ func c11Run(w *fw.W, idx int) {
 			if !tree.Equal(got, want, tree.Opts{IgnoreQuote: true}) {
 				culprit := op
 				key := "heap-model-disagreement:" + culprit
-				if strings.HasPrefix(op, "stable-sort") || strings.HasPrefix(op, "append!") {
+				if h.form != "" {
+					// the step wrote an operation in one of its optional call forms: the
+					// class is (operation, form, which value is wrong)
+					key = "call-form-disagreement:" + h.form + ":" + c11WhoIsWrong(h, mv)
+				} else if strings.HasPrefix(op, "stable-sort") || strings.HasPrefix(op, "append!") {
 					// name the provenance of the value that changed unexpectedly
 					key = fmt.Sprintf("unexpected-sharing:%s:other-value-from=%s", strings.SplitN(op, "-", 2)[0], mv.prov)
 					// ... or, when the mutator's target or the value that changed was built
@@ -894,6 +923,10 @@ func c11Run(w *fw.W, idx int) {
 		for _, via := range h.events {
 			w.SetAdd("call_built_forms_seen", via)
 			w.Count("call_built_values", 1)
+		}
+		for _, f := range h.forms {
+			w.SetAdd("call_forms_seen", f)
+			w.Count("call_form_steps", 1)
 		}
 		for c, n := range h.counts {
 			w.Count(c, n)
